@@ -377,6 +377,42 @@ def fixed_cases(thorough):
     return bins
 
 
+def stress_cases(thorough):
+    """long arguments: lists around the 16/32/64 block sizes, with the characters a
+    byte-wise / block-wise fast path gets wrong (code point >= 0x100 whose low byte is
+    ascii or zero, 2- and 4-byte chars) at the block edges; long pieces; many pieces"""
+    e = Emit()
+    ns = [15, 16, 17, 31, 32, 33, 63, 64, 65, 96] if thorough else [16, 31, 32, 33, 64, 65]
+    specials = [0x4E2A, 0x100, 0xE9, 0x1F9E0, 0x80, 0x10000, 0x7FF, 0x2A00]
+    k = 0
+    for n in ns:
+        e.concat("c", ["a"] * n, FORMS[k % 4])
+        for c in specials:
+            for p in sorted(set([0, n - 1, n // 2, 31 if n > 31 else 0, 32 if n > 32 else 0])):
+                l = [ord("a") + (i % 26) for i in range(n)]
+                l[p] = c
+                e.concat("c", l, FORMS[k % 4])
+                k += 1
+        l = [specials[i % len(specials)] for i in range(n)]
+        e.concat("c", l, "cs")
+        e.from_iter("c", [chr(x) for x in l], ["ref", "const", "copied", "map"][k % 4])
+        l2 = [ord("a") + (i % 26) for i in range(n)]
+        l2[n - 1] = 0x4E2A
+        e.from_iter("c", [chr(x) for x in l2], ["ref", "const", "copied", "map"][(k + 1) % 4])
+        # many str pieces, long str pieces
+        e.concat("s", [STR_PIECES[i % 4] for i in range(n)], FORMS[(k + 2) % 4])
+        e.concat("s", ["a" * n, "é" * n, "", "个" * (n // 3) + "b"], FORMS[(k + 3) % 4])
+        e.concat("s", ["x" * (n - 1) + "个"], "lit")
+        for sk, sep in [("s", ","), ("s", ""), ("s", "é,"), ("c", "个"), ("c", ",")]:
+            e.join(sk, sep, [STR_PIECES[(i + 1) % 4] for i in range(n)], FORMS[k % 4])
+            e.join(sk, sep, ["a" * n, "", "é" * n], FORMS[(k + 1) % 4])
+            k += 1
+        e.slice_concat("u8", [[(7 * i + j) % 256 for j in range(i % 3)] for i in range(n)], FORMS[k % 4])
+        e.slice_concat("u8", [[(3 * j) % 256 for j in range(n)], [], [(5 * j + 1) % 256 for j in range(n + 1)]], FORMS[(k + 1) % 4])
+        e.slice_concat("i16", [[(-1) ** j * j * 300 for j in range(n)], [7]], FORMS[(k + 2) % 4])
+    return e
+
+
 def random_cases(seed, thorough):
     rng = random.Random(seed * 7919 + 20)
     e = Emit()
@@ -442,6 +478,7 @@ def produce(tier, seed, release, out_path):
         emits["c20_macros_%s%d" % (t, k)] = e
     # the seeded cases live in their own small bin: a new seed rebuilds only that
     emits["c20_macros_%s_rand" % t] = random_cases(int(seed), thorough)
+    emits["c20_macros_%s_stress" % t] = stress_cases(thorough)
     for attempt in range(6):
         common.make_crate(crate, {b: e.program() for b, e in emits.items()})
         ok, stderr = cargo_build(crate, release)
